@@ -278,3 +278,57 @@ Proof.
   apply (init_prototypes_exact zero top n w labels Hn Hlen Hb q Hq) in E.
   destruct E as (r & _ & Hr & Hne). apply Hne. apply Hone; assumption.
 Qed.
+
+(* ------------------------------------------------------------------ *)
+(* the lemmas of Proofs/ResubBase.v on the trained model *)
+
+Theorem sup_cost_lt_cross :
+  forall (zero top : Z) (n : nat) (w : nat -> nat -> Z) (labels : list nat),
+    length labels = n -> tie_free n w zero top ->
+    (exists a b, a < n /\ b < n /\ nth a labels 0 <> nth b labels 0) ->
+    let nd := sup_fit Z.ltb zero top labels w in
+    forall a b, a < n -> b < n -> nth a labels 0 <> nth b labels 0 ->
+      (nth b (n_cost nd) zero < w a b)%Z.
+Proof.
+  intros zero top n w labels Hl Htf H2 nd a b.
+  exact (cost_lt_cross _ _ _ _ _ _ _ _ _ (sup_fit_facts zero top n w labels Hl Htf H2) a b).
+Qed.
+
+Theorem sup_link_same_label :
+  forall (zero top : Z) (n : nat) (w : nat -> nat -> Z) (labels : list nat),
+    length labels = n -> tie_free n w zero top ->
+    (exists a b, a < n /\ b < n /\ nth a labels 0 <> nth b labels 0) ->
+    let nd := sup_fit Z.ltb zero top labels w in
+    forall q p, q < n -> nth q (n_pred nd) None = Some p -> nth p labels 0 = nth q labels 0.
+Proof.
+  intros zero top n w labels Hl Htf H2 nd q p Hq Hp.
+  pose proof (sup_fit_facts zero top n w labels Hl Htf H2) as F.
+  exact (link_same_label _ _ _ _ _ _ _ _ _ F q p Hq (proto_pred_none _ _ _ _ _ _ _ _ _ F q p Hq Hp) Hp).
+Qed.
+
+Theorem sup_equal_cost_same_class :
+  forall (zero top : Z) (n : nat) (w : nat -> nat -> Z) (labels : list nat),
+    length labels = n -> tie_free n w zero top ->
+    (exists a b, a < n /\ b < n /\ nth a labels 0 <> nth b labels 0) ->
+    let nd := sup_fit Z.ltb zero top labels w in
+    forall s s', s < n -> s' < n ->
+      nth s (n_cost nd) zero = nth s' (n_cost nd) zero -> (zero < nth s (n_cost nd) zero)%Z ->
+      nth s labels 0 = nth s' labels 0.
+Proof.
+  intros zero top n w labels Hl Htf H2 nd s s'.
+  exact (equal_cost_same_class _ _ _ _ _ _ _ _ _ (sup_fit_facts zero top n w labels Hl Htf H2) s s').
+Qed.
+
+Theorem sup_equal_val_same_label :
+  forall (zero top : Z) (n : nat) (w : nat -> nat -> Z) (labels : list nat),
+    length labels = n -> tie_free n w zero top ->
+    (exists a b, a < n /\ b < n /\ nth a labels 0 <> nth b labels 0) ->
+    let nd := sup_fit Z.ltb zero top labels w in
+    forall d : nat -> Z, generic_query n w zero d ->
+      forall s s', s < n -> s' < n ->
+        Z.max (nth s (n_cost nd) zero) (d s) = Z.max (nth s' (n_cost nd) zero) (d s') ->
+        nth s labels 0 = nth s' labels 0.
+Proof.
+  intros zero top n w labels Hl Htf H2 nd d Hd s s'.
+  exact (equal_val_same_label _ _ _ _ _ _ _ _ _ (sup_fit_facts zero top n w labels Hl Htf H2) d s s' Hd).
+Qed.
